@@ -315,5 +315,17 @@ def rule_f(ctx):
                 detail or 'the subscriber is told on all %d exception paths' % n_exc)
 
 
+def rule_h(ctx):
+    """The error reply really is one ERROR frame on the given stream (what C12.b's call sites rely on)."""
+    from . import plumbing
+    plumbing.rule_send_helpers(ctx, 'C12.b')
+
+
+def rule_g(ctx):
+    """An unsolicited LEASE frame cannot stall the victim's requests (shared C14.f)."""
+    from .c14 import rule_gate_scope
+    rule_gate_scope(ctx)
+
+
 RULES = [('C12.a', rule_a), ('C12.b', rule_b), ('C12.c', rule_c), ('C12.d', rule_d), ('C12.e', rule_e),
-         ('C12.f', rule_f)]
+         ('C12.f', rule_f), ('C14.f', rule_g), ('C12.b', rule_h)]
